@@ -474,7 +474,9 @@ class Oracle:
                 self.fail("coarse-apparent-longitude", "Sun.apparent_longitude_coarse(Epoch(%r)) = (%.5f, %.6f), VSOP87 apparent = (%.5f, %.6f): %.4f deg apart (allowed 0.02)"
                           % (jde, float(al), r2, float(la), ra, d), [jde], imp + "print(Sun.apparent_longitude_coarse(e), Sun.apparent_geocentric_position(e))")
             ra_v, dec_v = C.ecliptical2equatorial(la, ba, C.true_obliquity(e))
-            d1 = abs(_wrap180(float(alpha) - float(ra_v))) * math.cos(dec_v.rad())
+            # the returned right ascension itself is held to the property's 0.02 degree (literal reading: every angle the
+            # coarse formulas return; not scaled by cos(dec) - the Sun never leaves |dec| <= 23.5 deg)
+            d1 = abs(_wrap180(float(alpha) - float(ra_v)))
             d2 = abs(float(delta) - float(dec_v))
             self.track("coarse-ra-dec [deg]", max(d1, d2))
             if d1 > 0.02 or d2 > 0.02 or abs(r3 - ra) > 3.5e-4 or not (0.0 <= float(alpha) < 360.0):
@@ -574,14 +576,23 @@ def search(rng, tier, deep):
     ncs = 1500 if full else 150
     for k in range(ncs):
         o.coarse(round(_jde_of_year(1800.0 + 400.0 * (k + rng.random()) / ncs), 3))
+    # both ends of the window, every season: an error that grows with |t| (a mistyped secular coefficient) crosses
+    # the 0.02 degree first at the window's edges and, in right ascension, near the solstices (d alpha / d lambda = 1.09)
+    nedge = 0
+    for y0 in (1800.0, 2197.0):
+        j0 = _jde_of_year(y0)
+        for d in range(0, 3 * 365, 1 if full else 3):
+            jj = round(j0 + d + 0.5 * rng.random(), 3)
+            if _jde_of_year(1800.0) <= jj <= _jde_of_year(2200.0):
+                o.coarse(jj); nedge += 1
     # date forms
     for _ in range(40 if full else 8):
         y = rng.choice([rng.randint(-2000, 4000), rng.randint(1900, 2100)])
         o.forms(y, rng.randint(1, 12), rng.randint(1, 28))
     stats = {"evaluations": o.n, "distinct_nontrivial": o.nontriv,
              "rule": "stratified-random epochs: %d frame cases in 1000..3000 (J2000, B1950, random equinox +-3 centuries; each vs precession_equatorial/ecliptical, 2 arcsec / 1e-5 AU, and norm = r), "
-                     "%d reflection cases and %d obliquity/nutation cases in -2000..4000, %d coarse-vs-VSOP87 cases in 1800..2200, date forms; non-trivial = cases evaluated without exception"
-                     % (nf + 4, nr, nn + 160, ncs),
+                     "%d reflection cases and %d obliquity/nutation cases in -2000..4000, %d coarse-vs-VSOP87 cases in 1800..2200 + %d at 1-3 day steps through the first and last three years of that window, date forms; non-trivial = cases evaluated without exception"
+                     % (nf + 4, nr, nn + 160, ncs, nedge),
              "worst_seen": {k: float("%.4g" % v) for k, v in sorted(o.worst.items())},
              "samples": [{"input": "Epoch(2448908.5)", "checked": "Sun geometric = Earth reflected; rectangular J2000/B1950/equinox vs of-date carried by precession_equatorial"},
                          {"input": "Epoch(1987, 4, 10)", "checked": "|mean obliquity - IAU cubic| <= 3 arcsec; nutation vs -17.20 sin / 9.20 cos of Moon's node; true = mean + nutation"}],
